@@ -15,7 +15,7 @@ type Desc struct {
 	// Nested: messages of Msgs that are DECLARED INSIDE another message of the file: k = the message's (unique) name in
 	// Msgs, v = "Parent" or "Parent:Name" when the declared simple name differs from k (two nested messages of different
 	// parents may share their simple name).  A field that refers to k refers to that nested declaration.
-	Nested []KV `json:"nested"`
+	Nested []KV `json:"nested,omitempty"`
 }
 
 // Dep is an unrelated dependency file (C12).
